@@ -106,6 +106,15 @@ func coldOne(r *core.Rand, fam string, k gen.Kind) coldTask {
 		}}
 	}
 	p := gen.Packet(r, k, gen.Opts{Small: true, NoBig: true, AllowKF: true})
+	if x, ok := p.(*rtcp.ExtendedReport); ok {
+		// every goroutine's report has a block of every kind and an unknown block of one of a few
+		// types, so that the first use of every per-kind (and per-type) path is a concurrent one
+		x.Reports = nil
+		for bk := gen.XRKind(0); bk < gen.NumXRKinds; bk++ {
+			x.Reports = append(x.Reports, gen.XRBlock(r, bk, false))
+		}
+		x.Reports = append(x.Reports, &rtcp.UnknownReportBlock{XRHeader: rtcp.XRHeader{BlockType: rtcp.BlockTypeType(r.Pick(0, 8, 255))}, Bytes: r.Bytes(4 * r.Intn(3))})
+	}
 	switch fam {
 	case "marshal":
 		return coldTask{fam + "/" + k.String(), func() uint64 {
@@ -140,8 +149,24 @@ func coldPlan(seed, idx uint64, only []string) (g int, plan [][]coldTask, fam st
 		fams = only
 	}
 	r := core.CaseRand(seed, "cold", "cold-start", idx)
-	fam = fams[idx%uint64(len(fams))]
-	kind = gen.Kind((idx / uint64(len(fams))) % uint64(gen.NumKinds))
+	// the (family, kind) combinations in turn: one per family that does not depend on a packet
+	// type, one per type for the others
+	type combo struct {
+		fam  string
+		kind gen.Kind
+	}
+	var combos []combo
+	for _, f := range fams {
+		if strings.HasPrefix(f, "nack-") || f == "compound" {
+			combos = append(combos, combo{f, gen.NACK})
+			continue
+		}
+		for k := gen.Kind(0); k < gen.NumKinds; k++ {
+			combos = append(combos, combo{f, k})
+		}
+	}
+	cb := combos[idx%uint64(len(combos))]
+	fam, kind = cb.fam, cb.kind
 	g = r.Pick(2, 4, 8, 16, 32)
 	plan = make([][]coldTask, g)
 	for i := range plan {
